@@ -130,12 +130,17 @@ func serialise(b *strings.Builder, v starlark.Value, depth int) {
 	}
 }
 
-func transcript(p program) string {
+var predeclared = starlark.StringDict{"struct": starlark.NewBuiltin("struct", starlarkstruct.Make), "json": sjson.Module, "math": smath.Module, "time": stime.Module}
+
+func transcript(p program) string { return transcriptOf(p, nil) }
+
+// transcriptOf runs p; with a non-nil prog the already compiled (shared) Program is initialised instead of compiling again.
+func transcriptOf(p program, prog *starlark.Program) string {
 	var out strings.Builder
 	modCache := map[string]starlark.StringDict{}
 	thread := &starlark.Thread{Name: "c03"}
 	thread.Print = func(_ *starlark.Thread, msg string) { out.WriteString("print: " + msg + "\n") }
-	pre := starlark.StringDict{"struct": starlark.NewBuiltin("struct", starlarkstruct.Make), "json": sjson.Module, "math": smath.Module, "time": stime.Module}
+	pre := predeclared
 	thread.Load = func(t *starlark.Thread, module string) (starlark.StringDict, error) {
 		if g, ok := modCache[module]; ok {
 			return g, nil
@@ -149,7 +154,14 @@ func transcript(p program) string {
 	}
 	stime.SetNow(thread, func() (time.Time, error) { return fixedNow, nil })
 	thread.SetMaxExecutionSteps(2000000)
-	globals, err := starlark.ExecFileOptions(fileOptions(p.Opts), thread, "prog.star", p.Src, pre)
+	var globals starlark.StringDict
+	var err error
+	if prog != nil {
+		globals, err = prog.Init(thread, pre)
+		globals.Freeze()
+	} else {
+		globals, err = starlark.ExecFileOptions(fileOptions(p.Opts), thread, "prog.star", p.Src, pre)
+	}
 	if err != nil {
 		out.WriteString("error: " + err.Error() + "\n")
 		if ee, ok := err.(*starlark.EvalError); ok {
@@ -210,6 +222,46 @@ func childMain(args []string) {
 		}
 	}
 	if *multi {
+		// the SAME compiled Program initialised on G goroutines at once (a Program is
+		// immutable and may be shared between threads), freshly compiled for every
+		// round so that lazily built tables are built under contention
+		for i := *lo; i < *hi; i++ {
+			p := genProgram(*seed, i)
+			if len(p.Tags) == 0 || p.Tags[len(p.Tags)-1] != "error" {
+				continue
+			}
+			for round := 0; round < 6; round++ {
+				_, prog, err := starlark.SourceProgramOptions(fileOptions(p.Opts), "prog.star", p.Src, predeclared.Has)
+				if err != nil {
+					break // static error: nothing to share
+				}
+				ts := make([]string, *g)
+				start := make(chan struct{})
+				var wg sync.WaitGroup
+				for k := 0; k < *g; k++ {
+					wg.Add(1)
+					go func(k int) {
+						defer wg.Done()
+						<-start
+						ts[k] = transcriptOf(p, prog)
+					}(k)
+				}
+				close(start)
+				wg.Wait()
+				bad := false
+				for k := 0; k < *g; k++ {
+					if ts[k] != seqT[i] {
+						enc.Encode(map[string]any{"kind": "diverge", "where": "shared-program-goroutines", "i": i, "a": seqT[i], "b": ts[k]})
+						bad = true
+						break
+					}
+				}
+				if bad {
+					break
+				}
+			}
+		}
+		sharedStress(enc, *g)
 		// G goroutines execute different programs at the same time, several rounds;
 		// each result is compared with the sequential one
 		var mu sync.Mutex
@@ -237,6 +289,86 @@ func childMain(args []string) {
 		}
 		wg.Wait()
 	}
+}
+
+// sharedStress: one large compiled program (a chain of long functions, the last
+// of which fails, so that the backtrace needs a position lookup in every
+// function's lazily decoded line table), reloaded from its compiled form for
+// every trial (a fresh Program: nothing decoded yet) and initialised on many
+// goroutines started a few microseconds apart.  Every goroutine must report the
+// same error, backtrace and step count as a sequential execution.
+func sharedStress(enc *json.Encoder, g int) {
+	const nfuncs, lines, trials = 80, 300, 250
+	var b strings.Builder
+	for k := nfuncs - 1; k >= 0; k-- {
+		fmt.Fprintf(&b, "def chain_function_%d(flag):\n    if flag:\n", k)
+		for i := 0; i < lines; i++ {
+			b.WriteString("        x = [flag, flag, flag, flag]\n")
+		}
+		if k == nfuncs-1 {
+			b.WriteString("    return {\"only_key_with_a_long_name\": 1}[\"missing_key_with_a_long_name\"]\n\n")
+		} else {
+			fmt.Fprintf(&b, "    return chain_function_%d(flag)\n\n", k+1)
+		}
+	}
+	b.WriteString("chain_function_0(False)\n")
+	src := b.String()
+	_, prog0, err := starlark.SourceProgramOptions(fileOptions(1), "chain.star", src, predeclared.Has)
+	if err != nil {
+		panic(err)
+	}
+	var compiled bytes.Buffer
+	if err := prog0.Write(&compiled); err != nil {
+		panic(err)
+	}
+	fresh := func() *starlark.Program {
+		p, err := starlark.CompiledProgram(bytes.NewReader(compiled.Bytes()))
+		if err != nil {
+			panic(err)
+		}
+		return p
+	}
+	run := func(prog *starlark.Program) string {
+		thread := &starlark.Thread{Name: "chain"}
+		_, err := prog.Init(thread, predeclared)
+		if err == nil {
+			return "no error"
+		}
+		msg := err.Error()
+		if ee, ok := err.(*starlark.EvalError); ok {
+			msg = ee.Backtrace()
+		}
+		return fmt.Sprintf("%s\nsteps=%d", msg, thread.ExecutionSteps())
+	}
+	want := run(fresh())
+	if g < 8 {
+		g = 8
+	}
+	deadline := time.Now().Add(12 * time.Second)
+	n := 0
+	for trial := 0; trial < trials && time.Now().Before(deadline); trial++ {
+		prog := fresh()
+		res := make([]string, g)
+		var wg sync.WaitGroup
+		for i := 0; i < g; i++ {
+			wg.Add(1)
+			go func(i int) {
+				defer wg.Done()
+				time.Sleep(time.Duration(i*(trial%4)) * 20 * time.Microsecond)
+				res[i] = run(prog)
+			}(i)
+		}
+		wg.Wait()
+		n++
+		for _, got := range res {
+			if got != want {
+				enc.Encode(map[string]any{"kind": "diverge", "where": "shared-program-goroutines", "i": -1, "a": "backtrace: " + strings.ReplaceAll(want, "\n", " | "), "b": "backtrace: " + strings.ReplaceAll(got, "\n", " | "),
+					"program": fmt.Sprintf("chain of %d functions of %d lines, the last one fails; trial %d", nfuncs, lines, trial)})
+				return
+			}
+		}
+	}
+	enc.Encode(map[string]any{"kind": "stress", "i": -1, "trials": n})
 }
 
 // --------------------------------------------------------------------- parent
@@ -325,6 +457,9 @@ func runMain(args []string) {
 					continue
 				}
 				i := int64(d["i"].(float64))
+				if d["kind"] == "stress" {
+					continue
+				}
 				switch d["kind"] {
 				case "t":
 					r.hashes[i] = d["h"].(string)
@@ -347,7 +482,12 @@ func runMain(args []string) {
 	ndiv := 0
 	seenKey := map[string]bool{}
 	report := func(where string, i int64, a, b string) {
-		p := genProgram(*seed, i)
+		var p program
+		if i >= 0 {
+			p = genProgram(*seed, i)
+		} else {
+			p = program{Src: "(the generated chain program of sharedStress; see harness/cmd/c03/main.go)", Tags: []string{"shared-program-chain"}}
+		}
 		key, x, y := firstDiff(a, b)
 		ndiv++
 		if seenKey[key] {
